@@ -710,9 +710,9 @@ def c14(tier, replay=None):
     if replay:
         rep = json.loads(Path(replay).read_text())
         rec = rep["detail"]["record"]
-        pv.write_ndjson(vtrace if rec.get("ev") == "ReadValue" else trace, [rec])
-        other = trace if rec.get("ev") == "ReadValue" else vtrace
-        pv.write_ndjson(other, [rec] if False else [])
+        kind = rec.get("ev")
+        pv.write_ndjson(trace, [rec] if kind not in ("ReadValue", "Cmd", "Let") else [])
+        pv.write_ndjson(vtrace, [rec] if kind in ("ReadValue", "Cmd") else [])
         info = {"records": 1, "value_records": 1}
     else:
         pv.write_ndjson(chk.work / "in.ndjson", smt_inputs(chk, T))
